@@ -179,11 +179,46 @@ CHECKS = {
         note="2^-20 fixed point; hex / tet / plane strain / axisymmetric / mixed bodies with objective materials on lattice-perturbed 8-cell "
              "meshes. Calls the library does not offer (mass of axisymmetric bodies, 2-vector gravity on axisymmetric fields) are not cases.",
         ref="5/C14"),
+    "C03": dict(
+        engine="Material",
+        technique="TLA+ law module Material.tla: integer 7-point stencil derivative law evaluated by TLC on symmetric differences of energies / "
+                  "stresses / mixed gradient entries vs the returned stresses / elasticity tensors / mixed blocks on spec-issued lattice "
+                  "deformation gradients; branch predicate for history-dependent updates; frame conditions (inputs untouched)",
+        text="For every built-in model (hand-coded, all tensortrax and jax hyperelastic models, composite, total-Lagrange wrapper, MORPH, "
+             "pseudo-elastic virgin/loaded, mixed u-p-J wrappers, small-strain elastic-plastic, linear-elastic variants, Laplace) TLC checks "
+             "45 D1 - 9 D2 + D3 = 15 R with R = P:D for energies, A:D for stresses at fixed state, the six mixed blocks (None = 0) and the "
+             "algorithmic tangent of stress updates, for unit and lattice directions D on batches of lattice deformation gradients.",
+        note="A lattice sample at ~1e-5 resolution, not a proof: energies are transcendental. Non-smooth points are excluded by spec "
+             "predicates on logged data (same return-mapping branch on the whole stencil; distinct stretches; history well above / below the "
+             "current energy). NaN/inf outputs are reported (clause FiniteValues).",
+        ref="5/C03"),
+    "C11": dict(
+        engine="Material",
+        technique="TLA+ linear laws in Material.tla with exact rational rotations Q = N/q evaluated by TLC on logged stresses / tangents",
+        text="TLC checks q P(QF) = N P(F) for rational rotations of the 1/3, 1/7, 1/9 families and signed permutations, symmetry of P F^T with "
+             "exact lattice F, P(1, virgin) = 0, A_ijkl = A_klij for hyperelastic models and q P(F Q^T) = P(F) N^T for the isotropic "
+             "(invariant / principal-stretch) models; the model class table (hyperelastic / isotropic / anisotropic / micro-sphere / history) "
+             "is part of the case set.",
+        note="Lattice F with det in [0.6, 1.7]; 2^-20 fixed point (8 ulp + 2^-15 relative; jax principal-stretch models x64 for their "
+             "documented 1e-4 eigenvalue regularisation). Micro-sphere and anisotropic models: objectivity only.",
+        ref="5/C11"),
+    "C12": dict(
+        engine="Material",
+        technique="TLA+ agreement law and the table of documented initial moduli (closed forms transcribed from the docstrings into Material.tla) "
+                  "evaluated by TLC",
+        text="TLC compares stress and elasticity of every pair of implementations of one model on identical lattice inputs and checks that "
+             "A(1) of every isotropic model is lambda0 1x1 + mu0 (1o1 + 1o1) with (mu0, K0) computed by TLC from the parameters through the "
+             "documented closed form -- the only oracle for a typo shared by both back-ends.",
+        note="Per-pair tolerances are spec constants; extended-tube moduli at delta = 0; micro-sphere and orthotropic models have no isotropic "
+             "closed form and are compared only pairwise.",
+        ref="5/C12"),
 }
 
 NOT_YET = {}
 
 ENGINES = [
+    {"name": "Material", "path": "spec/Material.tla", "serves_properties": ["C03", "C11", "C12"],
+     "kind_free_text": "TLA+ constitutive laws: stencil derivative, objectivity with rational rotations, agreement, documented initial moduli"},
     {"name": "Items", "path": "spec/Items.tla", "serves_properties": ["C01", "C14"],
      "kind_free_text": "TLA+ stencil-derivative / symmetry / multiplier / balance laws for solver items, evaluated by TLC in fixed point"},
     {"name": "Region", "path": "spec/Region.tla", "serves_properties": ["C06"],
